@@ -96,7 +96,7 @@ def run(chk):
         total += len(wrapped)
         chk.notes.append('API family %s through contexts with random histories: %d cases, %d disagreements' % (g, len(wrapped), bad))
         # static context (byte copy with counting callbacks): same result or an illegal-argument callback
-        if g == 'core':
+        if True:
             sw = []; si = []
             for c, line in items:
                 op = line.split(' ')[0]; rest = line[len(op):]
@@ -106,9 +106,10 @@ def run(chk):
                 chk.evaluations += 1; chk.classes['static_ctx'] = chk.classes.get('static_ctx', 0) + 1; chk.distinct.add(w[:120])
                 if b.startswith('#-99'): continue
                 op = l.split(' ')[0]
+                if b.startswith('#-98') or b.startswith('#-97'): continue
                 ok = (a == b) or ((' ILL' in a or a.startswith('ILL')) and op not in STATIC_SAFE)
-                if not ok: bad += 1; chk.disagreement(w, 'static_ctx', a, b)
-            chk.notes.append('static context copy: %d cases, %d neither equal nor reported through the illegal callback' % (len(sw), bad))
+                if not ok: bad += 1; chk.disagreement(w, 'static_ctx_' + g, a, b)
+            chk.notes.append('static context copy, family %s: %d cases, %d neither equal nor reported through the illegal callback' % (g, len(sw), bad))
     if total == 0: chk.obligation('corpus of API cases present (corpus/C20)', False, 'no cases')
     # schedules: ThreadSanitizer run (witness search)
     exe = os.path.join(chk.dir, 'threads_tsan')
